@@ -24,9 +24,8 @@
  *
  * Scope guards (identical in the model driver, so that shrinking cannot wander into C08's territory):
  * an operation naming an unknown or freed id, any operation except ref/unref on a window that is closed or has a
- * closed ancestor, `close` of the root, of a window with a queued restack or of a window that still has live children
- * (destroying a descendant of a closed window aborts in `_get_root`), `unref` of a window that still has live children,
- * answer `bad-op` and do nothing.
+ * closed ancestor (`_get_root` aborts on those), `close` of the root, `unref` of a window that still has live
+ * children (the parent's destroy would drop the harness's reference to them), answer `bad-op` and do nothing.
  */
 #define HCOMMON_MAIN
 #include "hcommon.h"
@@ -124,7 +123,6 @@ static TickitWindow *wins[MAXWIN];   /* NULL = never created or freed */
 static int parent_of[MAXWIN];
 static int refs[MAXWIN];
 static bool closed[MAXWIN];
-static bool pending_restack[MAXWIN];
 static int nwins;
 
 static char events[4096]; static size_t nevents;
@@ -245,7 +243,7 @@ static void engine_op(int argc, char **argv)
     tt = tickit_term_build(&(struct TickitTermBuilder){ .driver = &drv->super });
     if(!tt) { free(drv); drv = NULL; obs("bad-op"); return; }
     tickit_term_set_size(tt, lines, cols);
-    memset(wins, 0, sizeof wins); memset(closed, 0, sizeof closed); memset(pending_restack, 0, sizeof pending_restack);
+    memset(wins, 0, sizeof wins); memset(closed, 0, sizeof closed);
     wins[0] = tickit_window_new_root(tt);
     parent_of[0] = -1; refs[0] = 1; nwins = 1;
     tickit_window_bind_event(wins[0], TICKIT_WINDOW_ON_FOCUS, 0, on_focus, NULL);
@@ -258,7 +256,7 @@ static void engine_op(int argc, char **argv)
   if(strcmp(op, "flush") == 0 && argc == 1) {
     if(!wins[0]) { obs("bad-op"); return; }
     tickit_window_flush(wins[0]);
-    memset(pending_restack, 0, sizeof pending_restack);
+   
     dump("ok");
     return;
   }
@@ -275,7 +273,7 @@ static void engine_op(int argc, char **argv)
     wins[id] = tickit_window_new(wins[par], r, flags);
     if(!wins[id]) { obs("bad-op"); return; }
     parent_of[id] = id_of(tickit_window_parent(wins[id]));
-    refs[id] = 1; closed[id] = false; pending_restack[id] = false;
+    refs[id] = 1; closed[id] = false;
     nwins++;
     tickit_window_bind_event(wins[id], TICKIT_WINDOW_ON_FOCUS, 0, on_focus, NULL);
     dump("ok");
@@ -304,15 +302,15 @@ static void engine_op(int argc, char **argv)
 
   if(argc == 2) {
     if(strcmp(op, "close") == 0) {
-      if(id == 0 || pending_restack[id] || has_live_children(id)) { obs("bad-op"); return; }
+      if(id == 0) { obs("bad-op"); return; }
       tickit_window_close(w); closed[id] = true;
     }
     else if(strcmp(op, "show") == 0) tickit_window_show(w);
     else if(strcmp(op, "hide") == 0) tickit_window_hide(w);
-    else if(strcmp(op, "raise") == 0)      { tickit_window_raise(w); pending_restack[id] = true; }
-    else if(strcmp(op, "raisefront") == 0) { tickit_window_raise_to_front(w); pending_restack[id] = true; }
-    else if(strcmp(op, "lower") == 0)      { tickit_window_lower(w); pending_restack[id] = true; }
-    else if(strcmp(op, "lowerback") == 0)  { tickit_window_lower_to_back(w); pending_restack[id] = true; }
+    else if(strcmp(op, "raise") == 0)      { tickit_window_raise(w); }
+    else if(strcmp(op, "raisefront") == 0) { tickit_window_raise_to_front(w); }
+    else if(strcmp(op, "lower") == 0)      { tickit_window_lower(w); }
+    else if(strcmp(op, "lowerback") == 0)  { tickit_window_lower_to_back(w); }
     else if(strcmp(op, "focus") == 0) tickit_window_take_focus(w);
     else if(strcmp(op, "expose") == 0) tickit_window_expose(w, NULL);
     else { obs("bad-op"); return; }
